@@ -23,37 +23,26 @@ Definition C06_full : Prop :=
   (forall t v rest, doc_dom t v = true -> (doc_greedy t = true -> rest = []) -> roundtrip_at t v rest)
   /\ struct_dict_positional_law.
 
-(* The code falsifies it.  Witness: STRING2.decode(STRING2.encode("abc")) raises DataError (the
-   length prefix counts characters, the decoder reads that many BYTES). *)
-Definition STRING2_ty : ty := TStr false 2 Utf16.
-Theorem C06_full_refuted : ~ C06_full.
-Proof.
-  intros [H _]. specialize (H STRING2_ty (VStr [97; 98; 99]) [] eq_refl (fun _ => eq_refl)).
-  destruct H as (bs & He & Hd). vm_compute in He. injection He as <-. vm_compute in Hd. discriminate Hd.
-Qed.
-Print Assumptions C06_full_refuted.
-
-(* Further deviations, one witness per excluded class (each value is in the documented domain;
-   each line is what the real implementation does, see known_findings/C06.jsonl). *)
+(* The code still falsifies it.  Witness: Array(UINT, UINT): encode writes no length prefix (as
+   documented), so decoding the encoding of [1, 2] takes the first element for the count. *)
 Definition ty_named (s : string) : ty := match ty_of_name (zs_of_string s) with Some t => t | None => TBool end.
 Definition is_err {A} (r : res A) : bool := match r with Err _ => true | Ok _ => false end.
 Definition rt_result (t : ty) (v : val) (rest : bytes) : res (val * bytes) :=
   match encode t v with Ok bs => decode t (bs ++ rest) | Err e => Err e end.
 
-Example dev_string2_is_gen_row : ty_named "STRING2" = STRING2_ty. Proof. reflexivity. Qed.
-(* Array(UINT, UINT): encode emits no length prefix, decode raises *)
+Definition UINT_by_UINT : ty := TArrPrefix false (ty_named "UINT") (ty_named "UINT").
+Theorem C06_full_refuted : ~ C06_full.
+Proof.
+  intros [H _]. specialize (H UINT_by_UINT (VList [VInt 1; VInt 2]) [] eq_refl (fun _ => eq_refl)).
+  destruct H as (bs & He & Hd). vm_compute in He. injection He as <-. vm_compute in Hd. discriminate Hd.
+Qed.
+Print Assumptions C06_full_refuted.
+
+(* The remaining deviations, one witness per excluded class (each value is in the documented
+   domain; each line is what the real implementation does, see known_findings/C06.jsonl). *)
 Example dev_array_length_type :
-  doc_dom (TArrPrefix false (ty_named "UINT") (ty_named "UINT")) (VList [VInt 1; VInt 2]) = true
-  /\ rt_result (TArrPrefix false (ty_named "UINT") (ty_named "UINT")) (VList [VInt 1; VInt 2]) [] = Err DataError.
-Proof. split; reflexivity. Qed.
-(* STRINGN.encode("") cannot be decoded (BufferEmptyError) *)
-Example dev_stringn_empty :
-  doc_dom (ty_named "STRINGN") (VStr []) = true /\ rt_result (ty_named "STRINGN") (VStr []) [] = Err BufferEmpty.
-Proof. split; reflexivity. Qed.
-(* DATE_AND_TIME.encode(value): TypeError (two positional parameters) *)
-Example dev_date_and_time :
-  doc_dom (ty_named "DATE_AND_TIME") (VTuple [VInt 1; VInt 2]) = true
-  /\ encode (ty_named "DATE_AND_TIME") (VTuple [VInt 1; VInt 2]) = Err (Foreign TypeError).
+  doc_dom UINT_by_UINT (VList [VInt 1; VInt 2]) = true
+  /\ rt_result UINT_by_UINT (VList [VInt 1; VInt 2]) [] = Ok (VList [VInt 2], []).
 Proof. split; reflexivity. Qed.
 (* BYTE[1] given 16 bits: not truncated to the array length; the second byte is left in the stream *)
 Example dev_bit_array_overlong :
@@ -62,21 +51,6 @@ Example dev_bit_array_overlong :
   /\ encode (TArrFixed 1 (ty_named "BYTE")) v = Ok [255; 255]
   /\ rt_result (TArrFixed 1 (ty_named "BYTE")) v [] = Ok (VList (repeat (VBool true) 8), [255]).
 Proof. repeat split; reflexivity. Qed.
-(* Array(None, BYTE).decode returns a list of lists *)
-Example dev_bit_array_unbounded :
-  let v := VList (repeat (VBool true) 8) in
-  doc_dom (TArrAll (ty_named "BYTE")) v = true
-  /\ rt_result (TArrAll (ty_named "BYTE")) v [] = Ok (VList [VList (repeat (VBool true) 8)], []).
-Proof. repeat split; reflexivity. Qed.
-(* Array(2, n_bytes(1)): DataError (issubclass on an instance) *)
-Example dev_array_of_n_bytes :
-  doc_dom (TArrFixed 2 (TNBytes 1)) (VList [VBytes [1]; VBytes [2]]) = true
-  /\ encode (TArrFixed 2 (TNBytes 1)) (VList [VBytes [1]; VBytes [2]]) = Err DataError.
-Proof. split; reflexivity. Qed.
-(* n_bytes(0) *)
-Example dev_n_bytes_0 :
-  doc_dom (TNBytes 0) (VBytes []) = true /\ rt_result (TNBytes 0) (VBytes []) [] = Err BufferEmpty.
-Proof. split; reflexivity. Qed.
 (* PCCC_STRING: odd lengths cannot be encoded; even ones over-read what follows *)
 Example dev_pccc_string :
   doc_dom TPcccString (VStr [97; 98; 99]) = true /\ encode TPcccString (VStr [97; 98; 99]) = Err DataError
@@ -113,6 +87,34 @@ Proof.
 Qed.
 Print Assumptions C06_guarded.
 
+(* Array(<length type>, T), stated honestly: not decode (encode v) = v (no prefix is written), but the
+   documented decode — count in the length type, then the elements — inverts prefix ++ encoding. *)
+Theorem C06_length_prefixed :
+  forall inst lsg lw e l rest,
+    (0 < lw)%nat -> is_bits e = false -> wf_ty (TArrFixed (length l) e) = true ->
+    in_dom (TArrFixed (length l) e) (VList l) = true ->
+    int_in_range lsg lw (zlen l) = true -> zlen l <= count_limit ->
+    exists p bs, encode (TInt lsg lw) (VInt (zlen l)) = Ok p
+                 /\ encode (TArrPrefix inst (TInt lsg lw) e) (VList l) = Ok bs
+                 /\ decode (TArrPrefix inst (TInt lsg lw) e) (p ++ bs ++ rest)
+                    = Ok (norm (TArrFixed (length l) e) (VList l), rest).
+Proof. exact roundtrip_prefixed. Qed.
+Print Assumptions C06_length_prefixed.
+
+(* STRING2's domain is every string of Unicode scalar values whose UTF-16 length fits the prefix *)
+Definition STRING2_ty : ty := TStr false 2 Utf16.
+Theorem C06_string2_domain :
+  ty_named "STRING2" = STRING2_ty
+  /\ forall s rest, forallb scalar_ok s = true -> in_urange 2 (code_units Utf16 s) = true ->
+       C06_guard STRING2_ty (VStr s) rest = false.
+Proof.
+  split; [reflexivity|]. intros s rest Hs Hr. unfold C06_guard, STRING2_ty.
+  assert (Hd : in_dom (TStr false 2 Utf16) (VStr s) = true).
+  { cbn [in_dom]. unfold str_dom. rewrite (CodecRTBase.utf16_inverts s Hs). cbn [andb int_in_range]. exact Hr. }
+  rewrite Hd. reflexivity.
+Qed.
+Print Assumptions C06_string2_domain.
+
 (* REAL "to IEEE precision": the normal form of an in-domain REAL value is Flocq's binary32
    rounding (to nearest, ties to even) of the double, embedded back exactly.  This theorem alone
    depends on the stdlib real-number axioms (through Flocq). *)
@@ -122,6 +124,17 @@ Print Assumptions C06_real_precision.
 
 (* non-vacuity: a nested structure of arrays of strings with an unnamed member, encoded from a
    dict, followed by other data; an unbounded array; and the identity object *)
+Definition ex_fixed : ty :=   (* the classes the fix wave brought into the law *)
+  TStruct SPlain [(Some [116], ty_named "DATE_AND_TIME"); (Some [119], ty_named "STRING2"); (Some [101], ty_named "STRINGN");
+                  (Some [112], TArrFixed 2 (TNBytes 2)); (Some [122], TNBytes 0); (Some [98], TArrAll (ty_named "BYTE"))].
+Definition ex_fixed_val : val :=
+  VDict [(Some [116], VTuple [VInt 5; VInt 6]); (Some [119], VStr [97; 128512]); (Some [101], VStr []);
+         (Some [112], VList [VBytes [1; 2]; VBytes [3; 4]]); (Some [122], VBytes []);
+         (Some [98], VList (repeat (VBool true) 8 ++ repeat (VBool false) 8))].
+Example C06_nonvacuous_fixed_classes :
+  C06_guard ex_fixed ex_fixed_val [] = false /\ rt_result ex_fixed ex_fixed_val [] = Ok (ex_fixed_val, []).
+Proof. vm_compute. split; reflexivity. Qed.
+
 Definition ex_ty : ty :=
   TStruct SPlain [(Some [110], ty_named "UINT");
                   (None, ty_named "SINT");
